@@ -177,6 +177,20 @@ func (propC15) Gen(r *Rng, idx int, tier string) *Scenario {
 			}
 		}
 	}
+	if cv := r.Fork("casevars"); cv.Chance(1, 6) {
+		// variables whose names differ from an option's env key in case only (and
+		// from each other in value); the key itself is not set
+		for _, oi := range optInfos(sc.Decl) {
+			full := envFullOf(sc.Decl, oi)
+			if oi.O.Env == "" || full == "" || strings.ToLower(full) == full || !cv.Chance(1, 2) {
+				continue
+			}
+			delete(sc.World.Env, full)
+			delete(sc.World.Env, oi.O.Env)
+			sc.World.Env[strings.ToLower(full)] = BStr(iniValText(cv, oi.O))
+			sc.World.Env[full[:1]+strings.ToLower(full[1:])] = BStr(iniValText(cv, oi.O))
+		}
+	}
 	if wr.Chance(1, 4) {
 		// the configuration file exists already and holds sections of other programs
 		sc.World.Files = map[string]BStr{"conf/app.ini": "[other program]\nx = 1\n[Another Tool]\ny = 2\n[zzz.settings]\nk = v\n[tool-b]\nq = 4\n"}
@@ -243,6 +257,16 @@ func (propC15) Gen(r *Rng, idx int, tier string) *Scenario {
 					if isMapKind(oi.O.Kind) || isSliceKind(oi.O.Kind) {
 						g := &declGen{r: or}
 						v = g.multiInit(oi.O.Kind)
+						if mk := or.Fork(fmt.Sprint("mixedkeys", i)); isMapKind(oi.O.Kind) && mapKeyKind(oi.O.Kind) == "string" && len(v.L) > 0 && mk.Chance(1, 3) {
+							// keys that are numbers next to keys that only start like one
+							for len(v.L) < 3 {
+								v.L = append(v.L, v.L[0])
+							}
+							v.K = nil
+							for j := range v.L {
+								v.K = append(v.K, V{T: BStr([]string{"10", "2", "1a", "9", "1b"}[j%5])})
+							}
+						}
 					}
 					sc.Ops = append(sc.Ops, Op{Kind: "store", Path: oi.Path, Val: &v})
 				}
@@ -272,6 +296,11 @@ func (propC15) Gen(r *Rng, idx int, tier string) *Scenario {
 		// (a program's package-level `var errX = &flags.Error{...}`)
 		sc.Callee = []CalleeFault{{Kind: "execute", Nth: -1, ID: 100 + cr.Intn(900),
 			Form: cr.Pick([]string{"", "flags:marshal", "flags:unknown", "flags:required", "wrap:marshal", "flags:marshal"})}}
+	}
+	if pr := r.Fork("calleepanic"); len(sc.Callee) == 0 && pr.Chance(1, 10) {
+		// a value type or an option callback of the program that panics: whatever the
+		// library makes of that, it makes the same of it every time
+		sc.Callee = []CalleeFault{{Kind: pr.Pick([]string{"unmarshal", "callback", "validate"}), Nth: -1, ID: 100 + pr.Intn(900), Form: "panic"}}
 	}
 	k := 6
 	if tier == "thorough" {
